@@ -329,7 +329,8 @@ class EstimateAgent(Agent):  # pylint: disable=too-many-public-methods
         Args:
             observations (``list``): :class:`.Observation` objects corresponding to the detected maneuver.
         """
-        sensor_nums = {ob.sensor_id for ob in observations}
+        # [NOTE]: sorted, the iteration order of a set depends on the order the observations arrived in
+        sensor_nums = sorted({ob.sensor_id for ob in observations})
         msg = f"Maneuver Detected for RSO {self.simulation_id} by sensors {sensor_nums} at time {self.datetime_epoch}"
         self._logger.info(msg)
 
